@@ -16,6 +16,8 @@ func famConnHeavy() []explore.Event {
 		conn("readd:INBOX"),
 		conn("delete:INBOX:first"),
 		conn("add:m2:first:INBOX"),
+		conn("addfl:m2:first:INBOX:\\Flagged"),
+		conn("movefl:INBOX:last:m2:\\Seen"),
 		ev("cmd", 0, `FETCH 1:* (FLAGS)`),
 	}
 }
